@@ -592,6 +592,8 @@ class Yinyang(Base):
 
     def instances(self, tier, rng):
         out = []
+        for (h, w) in [(3, 4), (4, 3), (3, 5), (2, 6)]:       # clue-free boards wide enough for every side to have interior cells
+            out.append({"tag": "%dx%d/none-wide" % (h, w), "h": h, "w": w, "problem": [[0] * w for _ in range(h)]})
         for (h, w) in shapes(8 if tier == "quick" else 12, min_side=2):
             out.append({"tag": "%dx%d/none" % (h, w), "h": h, "w": w, "problem": [[0] * w for _ in range(h)]})
             for k in range(6 if tier == "quick" else 30):
@@ -1008,6 +1010,15 @@ class CastleWall(Base):
 
     def instances(self, tier, rng):
         out = []
+        for (h, w) in [(4, 2), (2, 4), (4, 3), (3, 4)]:
+            # outward- and inward-pointing clues on every edge of boards with at least four rows / columns
+            for (y, x) in ((0, 0), (h - 1, w - 1), (0, w - 1), (h - 1, 0), (0, w // 2), (h // 2, 0)):
+                for dch in "^v<>":
+                    for n in (0, 1):
+                        arrow = [[".."] * w for _ in range(h)]
+                        inside = [[None] * w for _ in range(h)]
+                        arrow[y][x] = dch + str(n)
+                        out.append({"tag": "%dx%d/edge%d,%d%s%d" % (h, w, y, x, dch, n), "h": h, "w": w, "arrow": arrow, "inside": inside})
         for (h, w) in shapes(6 if tier == "quick" else 9, min_side=2):
             for k in range(10 if tier == "quick" else 40):
                 arrow = [[".."] * w for _ in range(h)]
